@@ -43,8 +43,8 @@ def encs(v):
     return wire.encs(v, ZO)
 
 
-def build(state):
-    db = mongomock.MongoClient().db
+def build(state, tz_aware=False):
+    db = (mongomock.MongoClient(tz_aware=True) if tz_aware else mongomock.MongoClient()).db
     for name in COLLS:
         docs = state.get(name)
         if docs:
@@ -163,6 +163,21 @@ def py_run(n, state, coll, pipeline):
             scribble(res)
     extra['scribble_safe'] = snapshot(db) == after
     return ans, extra
+
+
+def py_tz_run(state, coll, pipeline):
+    """the pipeline on a tz_aware twin of the database: the results are a REBUILD — no dict or
+    list occurs twice in them, none is an object of the caller's pipeline, and they equal what
+    the plain database returns (the generated values hold no datetimes)"""
+    db = build(state, tz_aware=True)
+    p = copy.deepcopy(pipeline)
+    pipe_ids = set(container_ids(p))
+    res = outcome(lambda: db[coll].aggregate(p))
+    if isinstance(res, Exception):
+        return {'res': show(res), 'separate': True, 'pipe_same': encs(p) == encs(pipeline)}
+    ids = container_ids(res)
+    return {'res': show(res), 'separate': len(ids) == len(set(ids)) and not (set(ids) & pipe_ids),
+            'pipe_same': encs(p) == encs(pipeline)}
 
 
 def py_proc(state, coll, prefix, pipeline):
